@@ -361,7 +361,8 @@ def build(tier):
             '[pointer, pointer + extent) is addressable memory of that object; operator()(index) returns data() + index inside the object. The offsets\' contracts are ASSUMED there exactly as '
             'proved on the SMT side: the C requires-clause is generated from the same python clause functions (tmodel.ens_view / ens_slice) with the C names substituted',
             'storage.h on REAL heap objects (CBMC, double; rank 1: every operation below; rank 2, quick tier: sizes / dims constructors, owning <- / = constant and mutable views, owning copy / move '
-            'assignment, resize(sizes) / resize(dims), mapping <- owning, mapping element copies copy<mapping> / = owning, tensor_mem_t = tensor_map_t, the defaulted move assignment of tensor_map_t, '
+            'assignment, resize(sizes) / resize(dims), mapping <- owning, mapping element copies copy<mapping> / = owning, tensor_mem_t = tensor_map_t / tensor_cmap_t, the five converting constructors of '
+            'tensor_t (tensor_mem_t <- cmap / map, tensor_cmap_t <- mem / map, tensor_map_t <- mem), the defaulted move assignment of tensor_map_t, '
             'owning = view INSIDE its own buffer; rank 3, quick tier: owning = constant view, resize(dims), copy<mapping>; thorough tier: every operation at ranks 2 and 3.  At ranks >= 2 size() is '
             'the NAMED product of the extents: an uninterpreted function of the extent tuple, so equal dims give equal sizes and nothing else is known -- an allocation / copy of size<0>() or dims[0] '
             'coefficients instead of size() is refuted at rank 2 while it is invisible at rank 1; specs/C16/storage.h, sspec.py): every constructor (default, sizes, dims, converting, copy, move), every assignment operator '
@@ -383,7 +384,7 @@ def build(tier):
                         'vector() = vector(), rows of reshape(n, -1).matrix()); any other copy inside an indexed overload is refused (exit 2), the coefficient VALUES inside a row are the assumed '
                         'Eigen contract "Map = expression copies coefficient k to coefficient k"; a CORRECTED reshape-based gather (early return on an empty list) is still refuted at the reshape '
                         'precondition by shapes like (2^62 + 1) x 0, whose first extent alone exceeds the 2^62 bound the reshape contract puts on the requested shape (modelling bound, not a library defect)',
-                        'tensor_t converting CONSTRUCTORS at ranks 2, 3: thorough tier only (rank 1: quick); an object under construction has no buffer a source could alias',
+                        'tensor_t converting CONSTRUCTORS at rank 3: thorough tier only (ranks 1, 2: quick); an object under construction has no buffer a source could alias',
                         'storage conversions: ranks >= 4; at ranks 2, 3 most operations run in the thorough tier only, '
                         'implicit member destruction (~tensor_vector_storage_t has no statement in the AST), allocation failure (std::bad_alloc path)', 'summed-area table VALUES: rank 3; the border cells of rank 2 (row 0 / column 0, where the recurrence has fewer terms); the region-sum formula as such (it follows from the recurrence by '
                         'telescoping: an induction over the region that is not mechanised here); floating-point outputs',
